@@ -29,6 +29,10 @@ inductive Comp
   | node (n : Node)
   | ext (e : Nat)
   | inner (id : CompId)
+  /-- the single inner component behind the per-signal instances of an exporter built on `sharedcomponent` -/
+  | innerExp (id : CompId)
+  /-- … of a connector built on `sharedcomponent` (instances = its (signal, signal) pairs) -/
+  | innerConn (id : CompId)
 deriving DecidableEq, Repr
 
 /-- `x` occurs before `y` -/
@@ -91,6 +95,11 @@ def startPlan (order : List Node) : List Comp :=
 /-- `Graph.StartAll` -/
 def graphStart (sys : Sys) (failS : Comp → Bool) : List (Comp × Bool) := runStarts failS (startPlan sys.gorderStart)
 
+/-- `Graph.ShutdownAll` stop sequence: topological order, capabilities / fan-out nodes skipped, exporters moved
+behind every other component (`stopOrder` in the repaired `ShutdownAll`) -/
+def stopPlan (order : List Node) : List Comp :=
+  ((order.filter Node.isComp).filter (fun n => !(n.isExp)) ++ (order.filter Node.isComp).filter Node.isExp).map Comp.node
+
 /-- `Service.Start`: extensions; only if they all started, the pipelines -/
 def serviceStart (sys : Sys) (failS : Comp → Bool) : List (Comp × Bool) :=
   let l1 := extStart sys failS
@@ -98,13 +107,53 @@ def serviceStart (sys : Sys) (failS : Comp → Bool) : List (Comp × Bool) :=
 
 /-- `Service.Shutdown`: pipelines (topological order), then extensions (reverse start order); never stops early -/
 def serviceShutdown (sys : Sys) (failT : Comp → Bool) : List (Comp × Bool) :=
-  runStops failT (compsOf sys.gorderStop) ++ runStops failT (sys.eorder.reverse.map Comp.ext)
+  runStops failT (stopPlan sys.gorderStop) ++ runStops failT (sys.eorder.reverse.map Comp.ext)
 
 /-- the collector: `Start`; `Shutdown` exactly once, whether or not `Start` failed -/
 def run (sys : Sys) (failS failT : Comp → Bool) : Outcome :=
   let s := serviceStart sys failS
   let t := serviceShutdown sys failT
   { starts := s, startOk := allOk s, stops := t, stopOk := allOk t }
+
+/-! ## `service.New` and the collector around it -/
+
+inductive NewErr
+  | connector    -- graph.Build: connector use without supported counterpart
+  | cycle        -- graph.Build: connector cycle
+  | extMissing   -- computeOrder: dependency on an extension that is not in the service's list
+  | extCycle     -- computeOrder: topo.Sort failed
+deriving DecidableEq, Repr
+
+/-- `computeOrder`: `unable to find extension … on which extension … depends` -/
+def extMissing (exts : List Ext) : Bool :=
+  exts.any (fun e => e.deps.any (fun d => !(exts.any (fun x => x.id == d))))
+
+/-- one peeling round on the extension dependency graph: release every extension all of whose dependencies are released -/
+def extPeelStep (exts : List Ext) (done : List Nat) : List Nat :=
+  done ++ (exts.filter (fun e => !(decide (e.id ∈ done)) && e.deps.all (fun d => decide (d ∈ done)))).map (·.id)
+
+def extPeel (exts : List Ext) : Nat → List Nat
+  | 0 => []
+  | k + 1 => extPeelStep exts (extPeel exts k)
+
+/-- `topo.Sort` on the dependency graph succeeds (same modelling of gonum's success condition as `C09.sortable`) -/
+def extSortable (exts : List Ext) : Bool := exts.all (fun e => decide (e.id ∈ extPeel exts exts.length))
+
+/-- `service.New`: `initGraph` (`graph.Build`) first, then `initExtensions` (`extensions.New` → `computeOrder`:
+unknown dependency, then `topo.Sort`).  (An extension depending on *itself* makes gonum's `SetEdge` panic inside
+`New`; no extension of this repository implements `Dependencies()`, the case is not modelled.) -/
+def newService (cfg : Cfg) (exts : List Ext) : Option NewErr :=
+  match build cfg with
+  | some .connector => some .connector
+  | some .cycle => some .cycle
+  | none => if extMissing exts then some .extMissing else if !(extSortable exts) then some .extCycle else none
+
+/-- `otelcol/collector.go setupConfigurationComponents` + shutdown: `service.New`; when it fails the error is
+returned and neither `Start` nor `Shutdown` of that service is ever called; otherwise `run` -/
+def lifetime (sys : Sys) (failS failT : Comp → Bool) : Outcome :=
+  match newService sys.cfg sys.exts with
+  | some _ => { starts := [], startOk := false, stops := [], stopOk := true }
+  | none => run sys failS failT
 
 /-! ## who sends data to whom -/
 
